@@ -99,7 +99,9 @@ func (c *Collection) Find(query, sort bsonkit.Doc, skip, limit int) (*Result, er
 	}
 
 	// apply skip
-	if skip > len(list) {
+	if skip < 0 {
+		return nil, fmt.Errorf("skip must not be negative")
+	} else if skip > len(list) {
 		list = nil
 	} else {
 		list = list[skip:]
@@ -241,7 +243,9 @@ func (c *Collection) Update(query, update, sort bsonkit.Doc, skip, limit int, ar
 	}
 
 	// apply skip
-	if skip > len(list) {
+	if skip < 0 {
+		return nil, fmt.Errorf("skip must not be negative")
+	} else if skip > len(list) {
 		list = nil
 	} else {
 		list = list[skip:]
@@ -425,7 +429,9 @@ func (c *Collection) Delete(query, sort bsonkit.Doc, skip, limit int) (*Result, 
 	}
 
 	// apply skip
-	if skip > len(list) {
+	if skip < 0 {
+		return nil, fmt.Errorf("skip must not be negative")
+	} else if skip > len(list) {
 		list = nil
 	} else {
 		list = list[skip:]
